@@ -203,6 +203,9 @@ func (x *Exec) unitReturn(st *State, fr *Frame, res []Val, in *ssa.Return) {
 	if c.Fresh {
 		// `fresh` is assumed by callers (the result is an object of its own): proved here
 		for i, r := range res {
+			if iv, isI := r.(IfaceV); isI && iv.Sym == "" && iv.Payload != nil {
+				r = iv.Payload // an object handed back inside an interface
+			}
 			if pv, ok := r.(PtrV); ok && pv.Ref != "" && !pv.Nil {
 				x.oblige(st, fr, fmt.Sprintf("post.*.fresh.r%d", i), "post", "*.fresh", tOr(tEq(pv.Ref, "0"), tCmp("<=", fr.entry.top, pv.Ref)), in, nil)
 			}
